@@ -21,6 +21,29 @@ Theorem C16_source_shapes :
 Proof. exact eq_refl. Qed.
 Print Assumptions C16_source_shapes.
 
+(* Structure fingerprints of the eleven modelled functions ([if; else; match; return; for;
+   while|loop; method calls; semicolons; containers; unsafe; macros], comments stripped), in the
+   order topology/mod.rs edge_cut, lambda_cut; topology/sprs.rs edge_cut, lambda_cut;
+   cartesian/mod.rs position_of, index_of, GridNeighbors::next; imbalance.rs compute_parts_load,
+   imbalance, imbalance_target, max_imbalance.  ANY second code path in one of them (a branch on
+   num_parts, an early return, a HashMap, another fold/reduce/extend) changes its row: this
+   theorem then no longer checks and the model has to be re-read against the source. *)
+Theorem C16_source_fingerprints :
+  source_fingerprints = [
+  [0; 0; 0; 0; 0; 0; 8; 1; 0; 0; 0]%nat;
+  [0; 0; 0; 0; 0; 0; 12; 3; 1; 0; 0]%nat;
+  [0; 0; 0; 0; 0; 0; 15; 6; 0; 0; 0]%nat;
+  [0; 0; 0; 0; 0; 0; 16; 6; 1; 0; 0]%nat;
+  [0; 0; 1; 0; 1; 0; 2; 12; 0; 0; 0]%nat;
+  [0; 0; 1; 0; 0; 0; 4; 10; 0; 0; 0]%nat;
+  [3; 1; 1; 2; 0; 1; 1; 8; 0; 0; 0]%nat;
+  [0; 0; 0; 0; 1; 0; 10; 5; 2; 0; 3]%nat;
+  [2; 0; 0; 2; 0; 0; 17; 8; 0; 0; 1]%nat;
+  [0; 0; 0; 0; 0; 0; 7; 1; 0; 0; 0]%nat;
+  [0; 0; 0; 0; 0; 0; 4; 0; 0; 0; 0]%nat].
+Proof. exact eq_refl. Qed.
+Print Assumptions C16_source_fingerprints.
+
 (* the sparse-matrix specialisation (take_while on sorted rows) returns what the
    trait's default method returns, for every partition array (too short: both panic) *)
 Theorem C16_csr_cut_eq_generic : forall g p,
